@@ -159,4 +159,17 @@ theorem batch_rows_finish_together (n : Nat) (hpos : 0 < n) (insts : List Inst) 
   simp only [List.length_map, hin] at this
   exact this
 
+/-- **C04 (TSP), any index set**: a batch indexed by an arbitrary index set `ι` (e.g. the pairs `(b1, b2)` of a
+multi-dimensional batch size `[B1, B2]`) is the flat batch read through the flattening map `flat : ι → Nat`
+(a reshape moves no data), so EVERY index `j : ι` carries the solo state of its own instance and is done exactly
+when `n` columns have been played. -/
+theorem batch_index_finish_together {ι : Type} (flat : ι → Nat) (n : Nat) (hpos : 0 < n) (insts : List Inst)
+    (cols : List (List Nat)) (hn : ∀ i ∈ insts, i.n = n) (hc : ∀ c ∈ cols, c.length = insts.length)
+    (hadm : ∀ r i, insts[r]? = some i → admitted env i (env.reset i) (cols.map (fun c => c.getD r 0)) = true) :
+    ∀ (j : ι) (i : Inst), insts[flat j]? = some i →
+      ∃ s, (batchExec (insts.map (fun i => (i, reset i))) cols)[flat j]? = some (i, s) ∧
+        s = exec env i (env.reset i) (cols.map (fun c => c.getD (flat j) 0)) ∧
+        (s.done = true ↔ cols.length = n) :=
+  fun j i hi => batch_rows_finish_together n hpos insts cols hn hc hadm (flat j) i hi
+
 end Rl4co.Tsp
